@@ -104,3 +104,14 @@ Fixpoint pure_build (fuel : nat) (c : ctx) (pool : list N) : result (list atx) :
 Definition no_assets (c : ctx) : bool := forallb (fun x => negb (is_asset_utxo x)) (cx_utxos c).
 Definition pure_send_all (c : ctx) : result (list atx) :=
   pure_build (S (length (cx_utxos c))) c (ada_pool c).
+
+(* the top-up step before /repo 180f5b3: `if need > 0 { ... }` instead of `while`: one round, the shortage not re-checked *)
+Definition topup_once (c : ctx) (pool : list N) (orig_empty : bool) (p : tprop) (used : list N) (size : N)
+  : result (tprop * list N * N) :=
+  let* need := get_need_ada p in
+  if need =? 0 then Ok (p, used, size)
+  else
+    let* next := by_amount c (rev pool) used need [] in
+    let* p1 := add_utxos c p next in
+    let* r := set_min_ada_for_tx c p1 in
+    if (cx_max_tx c <? snd r) && orig_empty then Err else Ok (fst r, used ++ next, snd r).
